@@ -179,11 +179,11 @@ def run_tool(chk, tool):
             return c, rc, log, err
 
         # warm-up (compiles the sysroot and the crate once), then the rest in parallel
-        results = [miri(0, cases[0], 3000)]
+        results = [miri(0, cases[0], 2400)]
         if results[0][1] not in (0,) and "error: Undefined Behavior" not in results[0][3] and "Data race" not in results[0][3] and not results[0][2]:
             raise Inconclusive("miri could not run the driver: %s" % results[0][3][-1500:])
         with concurrent.futures.ThreadPoolExecutor(max_workers=15) as ex:
-            futs = [ex.submit(miri, i, cases[i], 3000) for i in range(1, nseeds)]
+            futs = [ex.submit(miri, i, cases[i], 1500) for i in range(1, nseeds)]
             for f in futs:
                 results.append(f.result())
         nrep = 0
